@@ -81,3 +81,9 @@ PROPS['C07'] = dict(
   text='Decides that every value assigned to a variable of the repository\'s overflow_int_t typedef is computed at that width (a narrower add hidden under the widening cast defeats the overflow detection of translate), that translate normalises an emptied region, that contains_rectangle returns only the three enumerators and that bitmap import reads only a1 BITS images. '
        'Membership answers and the PART/IN/OUT sweep are value-level and not decided.',
   note='Trusted: clang-14 IR and debug info. F9 (32-bit sums formed before widening) was repaired in /repo.')
+PROPS['C15'] = dict(
+  technique='static analysis: may-be-NULL forward dataflow for every allocation result (T-NUL), fallibility fixpoint + unused-result rule with argument specialisation (T-ERR), local ownership path query (T-OWN), region failure protocol and sentinel guards',
+  text='Over every function reachable from the exported API: a forward may-be-NULL dataflow (through SSA values, phis and fields the result is stored to) shows that no result of malloc/calloc/realloc or of a function that can pass an allocation failure on as NULL is dereferenced on a path where it has not been tested; '
+       'the status of every function that can fail through an allocation is used at each call site (or the failing paths are unreachable for the constant/non-null arguments passed); every locally owned allocation is released on all paths (stack-buffer idiom recognised); '
+       'region operations that fail leave the broken sentinel and sentinel data is never freed. This quantifies over every allocation site and every path at once, instead of the k-th allocation of sampled runs.',
+  note='Trusted: clang-14 IR = built program. Out of scope: the load-time constructor chain (unchecked implementation allocations abort at library load, outside any API call).')
